@@ -56,10 +56,12 @@ def step_budget(tool, opts, data):
 
 class Env:
     """The I/O environment of one run (what the scheduler decides)."""
-    __slots__ = ("in_kind", "out_kind", "in_chunk", "out_chunk", "in_seed", "out_seed", "out_pre")
+    __slots__ = ("in_kind", "out_kind", "in_chunk", "out_chunk", "in_seed", "out_seed", "out_pre",
+                 "unbuf")
 
     def __init__(self, in_kind="path", out_kind="path", in_chunk="whole", out_chunk="whole",
-                 in_seed=0, out_seed=0, out_pre=0):
+                 in_seed=0, out_seed=0, out_pre=0, unbuf=False):
+        self.unbuf = unbuf          # the interpreter runs with -u / PYTHONUNBUFFERED=1
         self.in_kind, self.out_kind = in_kind, out_kind
         self.in_chunk, self.out_chunk = in_chunk, out_chunk
         self.in_seed, self.out_seed = in_seed, out_seed
@@ -75,7 +77,8 @@ class Env:
     def key(self):
         return (self.in_kind, self.out_kind,
                 self.in_chunk if self.in_kind != "path" else "-",
-                self.out_chunk if self.out_kind != "path" else ("pre%d" % self.out_pre if self.out_pre else "-"))
+                ("unbuffered" if self.unbuf else self.out_chunk) if self.out_kind != "path"
+                else ("pre%d" % self.out_pre if self.out_pre else "-"))
 
 
 def env_valid(tool, env):
@@ -126,7 +129,8 @@ def simulate(tool, opts, data: bytes, env: Env, damaged=(), boundaries=(), budge
     sout = ChunkSchedule(env.out_chunk, env.out_seed)
     use_stdin = env.in_kind != "path"
     w = World(stdin_data=data if use_stdin else None, stdin_sched=sin, stdout_sched=sout,
-              stdin_damaged=damaged if use_stdin else (), vcwd=VCWD_OF_PROCESS)
+              stdin_damaged=damaged if use_stdin else (), vcwd=VCWD_OF_PROCESS,
+              stdout_unbuffered=env.unbuf)
     with w:
         if not use_stdin:
             w.fs.put(IN_PATH, data, damaged)
